@@ -122,6 +122,11 @@ func parseBitfieldOffset(spec string, width int) (offset int, valid bool) {
 			return
 		}
 		offset = int(n) * width
+		if offset >= 8*512*1024*1024 {
+			// beyond the 512MB a string may hold
+			valid = false
+			return
+		}
 	} else {
 		n, err := strconv.ParseInt(spec, 10, 32)
 		if err != nil {
